@@ -444,11 +444,21 @@ func genValue(t *rapid.T, depth int, label string) any {
 }
 
 // GenSecret draws a secret of at least minLen bytes: printable, or arbitrary bytes.
+// HMAC pads short keys with zero bytes, so "k" and "k\x00" are one and the same key: a
+// generated secret never ends in a zero byte, which makes "different string" mean
+// "different HMAC key" for every secret shorter than the hash block (64 bytes).
 func GenSecret(t *rapid.T, label string, minLen int) string {
+	var s string
 	if rapid.IntRange(0, 3).Draw(t, label+".kind") == 0 {
-		return string(rapid.SliceOfN(rapid.Byte(), minLen, minLen+24).Draw(t, label+".bytes"))
+		s = string(rapid.SliceOfN(rapid.Byte(), minLen, minLen+24).Draw(t, label+".bytes"))
+	} else {
+		s = rapid.StringOfN(rapid.RuneFrom([]rune(b64Alpha+" !#$%")), minLen, minLen+32, -1).Draw(t, label)
 	}
-	return rapid.StringOfN(rapid.RuneFrom([]rune(b64Alpha+" !#$%")), minLen, minLen+32, -1).Draw(t, label)
+	s = strings.TrimRight(s, "\x00")
+	for len(s) < minLen || len(s) == 0 {
+		s += "z"
+	}
+	return s
 }
 
 const (
@@ -1043,6 +1053,7 @@ type CSReq struct {
 	Resp                []byte
 	RespChunks          int
 	EmptyEncrypted      bool // signature of the known finding D-C18-1
+	GenNow              int64 // the instant the timestamp was chosen against
 	Desc                string
 }
 
@@ -1142,7 +1153,7 @@ func GenCSReq(t *rapid.T, st *verifkit.Stats, env *Env, conf CSConf, now int64, 
 			payload = nil
 		}
 	}
-	r := CSReq{Encrypted: encrypted, Payload: payload, AESKey: p.key}
+	r := CSReq{Encrypted: encrypted, Payload: payload, AESKey: p.key, GenNow: now}
 	p.body = payload
 	if encrypted {
 		sendEncrypted := len(payload) > 0
@@ -1473,7 +1484,7 @@ func SendCS(env *Env, conf CSConf, gate http.Handler, probe *Probe, req CSReq, s
 	now1 := time.Now().Unix()
 	v0 := RefCS(env, conf, req.Header, req.HasHeader, req.Method, req.Path, req.Query, req.Body, now0)
 	v1 := RefCS(env, conf, req.Header, req.HasHeader, req.Method, req.Path, req.Query, req.Body, now1)
-	if v0.Accept != v1.Accept || now1-now0 > 3 {
+	if v0.Accept != v1.Accept || now1-req.GenNow > 3 {
 		return "", false, true
 	}
 	ref := v0
@@ -1601,7 +1612,7 @@ func RunCSCase(t *rapid.T, st *verifkit.Stats, env *Env, opt CSGenOpt, build CSB
 		fmt.Fprintf(&logb, "\n  #%d %s", i, r.Desc)
 		problem, _, inconclusive := SendCS(env, conf, gate, probe, r, st)
 		if inconclusive {
-			st.Note("cs: request took more than 3 s or the verdict changed in flight (inconclusive)")
+			st.Note("cs: more than 3 s between choosing the timestamp and the answer, or the verdict changed in flight (inconclusive)")
 			continue
 		}
 		if problem != "" {
@@ -1620,7 +1631,7 @@ func RunCSCase(t *rapid.T, st *verifkit.Stats, env *Env, opt CSGenOpt, build CSB
 // (used by the plain regression tests).
 func BuildCSReq(env *Env, conf CSConf, now int64, method, path, query string, payload, key []byte, encrypted bool, resp []byte) (CSReq, error) {
 	r := CSReq{Method: method, Path: path, Query: query, Payload: payload, AESKey: key, Encrypted: encrypted,
-		Resp: resp, RespChunks: 1, Pristine: true, WantValid: true, HasHeader: true}
+		Resp: resp, RespChunks: 1, Pristine: true, WantValid: true, HasHeader: true, GenNow: now}
 	r.Body = payload
 	typ := "0"
 	if encrypted {
